@@ -80,6 +80,9 @@ func (r *Result) Fingerprint() string {
 			fp += "|flush=" + sp.Flush
 		}
 	}
+	if sp := r.Plan.Opaque; sp != nil {
+		fp += fmt.Sprintf("|opaque=%s+%s|silent=%v|reorg=%v|ntfn=%s", shapeName(sp.ShapeA), shapeName(sp.ShapeB), sp.Silent, sp.Reorg, r.Plan.Ntfn)
+	}
 	return fp
 }
 
